@@ -2,14 +2,15 @@
 # usage: tools/eval_iso.sh <patch.diff> <ID> [<ID>...]
 # Like with_patch.sh but on an isolated copy (git worktree /tmp/evalrepo + harness copy /tmp/evalharness whose
 # path dependencies point there), so that /repo is not touched while other checks are running against it.
+# ISO=<suffix> selects a second, independent copy.
 # Development aid only: seeded/RESULTS.md is produced by seed_matrix.sh against /repo itself.
 set -u
 P=$1; shift
-R=/tmp/evalrepo; H=/tmp/evalharness
+R=/tmp/evalrepo${ISO:-}; H=/tmp/evalharness${ISO:-}
 [ -d $R ] || git -C /repo worktree add -q --detach $R HEAD || exit 2
 git -C $R checkout -q --detach "$(git -C /repo rev-parse HEAD)"; git -C $R checkout -q -- .
 mkdir -p $H; rsync -a --exclude target --exclude Cargo.toml /verif/harness/ $H/
-sed 's#path = "/repo#path = "/tmp/evalrepo#g' /verif/harness/Cargo.toml > $H/Cargo.toml
+sed "s#path = \"/repo#path = \"$R#g" /verif/harness/Cargo.toml > $H/Cargo.toml
 git -C $R apply "$P" || { echo "cannot apply $P"; exit 2; }
 ( cd $H && CARGO_NET_OFFLINE=true cargo build --offline --profile verif > $H/build.log 2>&1 ) || { echo "BUILD failed"; tail -5 $H/build.log; git -C $R checkout -q -- .; exit 2; }
 export VERIF_SCRATCH=1
